@@ -491,7 +491,9 @@ pub fn c19(tier: Tier) -> i32 {
                                     let mut cb = vec![];
                                     ciborium::ser::into_writer(&set, &mut cb).unwrap();
                                     let back2: RecordSet = ciborium::de::from_reader(&cb[..]).unwrap();
-                                    for (name, b) in [("JSON", &back), ("CBOR", &back2)] {
+                                    let pf = crate::posfmt::to_vec(&set).unwrap();
+                                    let back3: RecordSet = crate::posfmt::from_slice(&pf).unwrap();
+                                    for (name, b) in [("JSON", &back), ("CBOR", &back2), ("positional", &back3)] {
                                         let a: Vec<OwnedRecord> = set.into_iter().map(|r| r.to_owned_record()).collect();
                                         let bb: Vec<OwnedRecord> = b.into_iter().map(|r| r.to_owned_record()).collect();
                                         if a != bb || b.len() != set.len() {
@@ -512,8 +514,13 @@ pub fn c19(tier: Tier) -> i32 {
                                         let mut cb = vec![];
                                         ciborium::ser::into_writer(&o, &mut cb).unwrap();
                                         let b2: OwnedRecord = ciborium::de::from_reader(&cb[..]).unwrap();
+                                        let b3: Result<OwnedRecord, _> = crate::posfmt::to_vec(&o).and_then(|v| crate::posfmt::from_slice(&v));
                                         if b != o || b2 != o {
                                             problems.push("owned record changed by a serde round trip".into());
+                                        }
+                                        match b3 {
+                                            Ok(b3) if b3 == o => {}
+                                            other => problems.push(format!("owned record does not survive the positional format: {:?}", other.map(|_| "different value"))),
                                         }
                                     }
                                     if set.is_empty() {
@@ -537,7 +544,9 @@ pub fn c19(tier: Tier) -> i32 {
                                     let mut cb = vec![];
                                     ciborium::ser::into_writer(&set, &mut cb).unwrap();
                                     let back2: RecordSet = ciborium::de::from_reader(&cb[..]).unwrap();
-                                    for (name, b) in [("JSON", &back), ("CBOR", &back2)] {
+                                    let pf = crate::posfmt::to_vec(&set).unwrap();
+                                    let back3: RecordSet = crate::posfmt::from_slice(&pf).unwrap();
+                                    for (name, b) in [("JSON", &back), ("CBOR", &back2), ("positional", &back3)] {
                                         let a: Vec<OwnedRecord> = set.into_iter().map(|r| r.to_owned_record()).collect();
                                         let bb: Vec<OwnedRecord> = b.into_iter().map(|r| r.to_owned_record()).collect();
                                         if a != bb || b.len() != set.len() {
@@ -552,8 +561,13 @@ pub fn c19(tier: Tier) -> i32 {
                                         let mut cb = vec![];
                                         ciborium::ser::into_writer(&o, &mut cb).unwrap();
                                         let b2: OwnedRecord = ciborium::de::from_reader(&cb[..]).unwrap();
+                                        let b3: Result<OwnedRecord, _> = crate::posfmt::to_vec(&o).and_then(|v| crate::posfmt::from_slice(&v));
                                         if b != o || b2 != o {
                                             problems.push("owned record changed by a serde round trip".into());
+                                        }
+                                        match b3 {
+                                            Ok(b3) if b3 == o => {}
+                                            other => problems.push(format!("owned record does not survive the positional format: {:?}", other.map(|_| "different value"))),
                                         }
                                     }
                                     if set.is_empty() {
@@ -595,7 +609,7 @@ pub fn c19(tier: Tier) -> i32 {
         Report {
             property: "C19".into(),
             tier: tier.name().into(),
-            rule: "every input of the class-string / structured / record-shape families (two instantiations of the data class: ASCII and arbitrary bytes incl. 0x00, 0xFF, quote, backslash) x every capacity: one record set reused for all batches (so later, smaller batches carry stale offsets beyond len(); counted), after every batch the set and every owned record are serialised with serde_json and ciborium (CBOR), deserialised and compared (owned records by ==, sets by iterating both: count, all fields, sequence lines); non-trivial = run with at least one record".into(),
+            rule: "every input of the class-string / structured / record-shape families (two instantiations of the data class: ASCII and arbitrary bytes incl. 0x00, 0xFF, quote, backslash) x every capacity: one record set reused for all batches (so later, smaller batches carry stale offsets beyond len(); counted), after every batch the set and every owned record are serialised with serde_json, ciborium (CBOR) and a positional (bincode-like, non-self-describing) format, deserialised and compared (owned records by ==, sets by iterating both: count, all fields, sequence lines); non-trivial = run with at least one record".into(),
             exhaustive: true,
             assumptions: crate::c_inputs::std_assumptions(),
             extra: json!({"states_note": "states = non-trivial executions; transitions = serialisation round trips"}),
